@@ -301,6 +301,21 @@ pub fn exec_case<S: Sch>(case: &Case, out: &mut String, with_acc: bool) {
                         }
                     }
                 }
+                "empty" => {
+                    let key = &keys[signer];
+                    let r = guard(|| Enr::<HKey<S::K>>::empty(key));
+                    let log = signlog_str(&keys);
+                    match r {
+                        None => writeln!(out, "out res=panic signlog={log}").unwrap(),
+                        Some(Err(e)) => {
+                            writeln!(out, "out res=err:{} signlog={log}", err_str(&e)).unwrap()
+                        }
+                        Some(Ok(e)) => {
+                            writeln!(out, "out res=ok signlog={log}").unwrap();
+                            cur = Some(e);
+                        }
+                    }
+                }
                 "decode" => {
                     let buf = unhx(get("buf"));
                     let r = guard(|| {
